@@ -8,6 +8,17 @@ NOTE = ("Trusted: Lean 4.33.0 kernel (axioms propext, Classical.choice, Quot.sou
         "Modelled rather than verified: Vec/HashMap/BinaryHeap/String as lists, u8/u16/usize as Nat, panics as a result value. ")
 
 CLAIMS = {
+ 'C04': ("PARTIAL. Theorems in Purr/Props/C04.lean: completeness on the writer's image — every protocol-conformant non-empty history (any nesting, dots in branches, any ring numbers and bond kinds, every atom kind with every "
+         "bracket-field combination) is spelled by the writer as a string the reader accepts (corollary of T-wr, C09); every accepted string has a conformant non-empty history whose normal-form text is accepted again and replays the same "
+         "events; the verdict is never a panic; token languages are characterised by C07. The verdict's independence of the follower is structural in the model (read returns the events) and is checked of the code by running every string "
+         "through four followers. NOT a theorem yet: accepts_iff_grammar against an independent character-level grammar (non-canonical spellings); that equivalence is decided on every run against the harness's reference recogniser "
+         "(written from the grammar, periodic table transcribed independently) on bounded-exhaustive string sets and exhaustive token families — declared as correspondence support, not proof.",
+         "Lean 4 proof of completeness on canonical spellings and closure under normalisation (via T-wr) + differential comparison with an independent reference recogniser", "4.4"),
+ 'C05': ("PARTIAL. Theorems in Purr/Props/C05.lean: the failing remainder reported by the reader is a suffix of the input for every string (by induction over the reader transducer using shape lemmas for every token reader), hence "
+         "Character(i) always has i < |s| and the input from i on is exactly where the reader stopped; EndOfLine is reported exactly when the reader stopped at the end of the input; the verdict is never a panic. NOT theorems yet: "
+         "'the prefix before the cursor is viable and the prefix including it is not' (truncation/extension/completion lemmas). That is decided on every run by comparing every refused string's verdict with the reference recogniser "
+         "(a deterministic automaton all of whose states are completable) and by brute-force completion of the prefix before the cursor.",
+         "Lean 4 proof that reported cursors lie inside the input (suffix invariant over the reader) + differential comparison of cursors with a reference prefix recogniser", "4.5"),
  'C06': ("Theorems in Purr/Props/C06.lean: every expect/unreachable!/overflow site of the code is an explicit panic outcome of the model, and the theorems show them unreachable: "
          "reading any string never reaches a panic site of the token readers or of read (read_no_panic, by induction over the reader transducer); the string writer never panics on the events "
          "of the reader or of the traversal of any adjacency list (via C08); hydrogen queries cannot overflow (subvalence <= 6, hydrogens <= 9 for any degree). Termination of every model function is "
@@ -49,6 +60,12 @@ CLAIMS = {
          "is not yet a theorem (it needs the traversal invariant) and is covered by the S-graph correspondence and the online oracle only — declared partial on that lemma. "
          "Tie: JoinPool driven directly through the cfg hook and through walk on ring-rich graphs.",
          "Lean 4 proof (invariant by induction over hit sequences; least-free-number and recycling theorems) + differential correspondence of JoinPool and walk", "4.13"),
+ 'C19': ("Theorems in Purr/Props/C19.lean: depth_le_nesting — for EVERY string the number of simultaneously live read_smiles activations (= length of the reader transducer's stack on the repaired tree) is at most "
+         "parenthesis nesting + 1, independent of length; depth_flat — any input without parentheses (chains, dot lists with or without rings, ring digit lists) is read at depth 1 whatever its size; one level of branches at depth 2. "
+         "Proof by induction over the transducer with shape lemmas (every token consumed is parenthesis-free). PARTIAL BY NATURE: a theorem bounds activations, not bytes; the tie is the purr_verif hook's activation counter compared "
+         "EXACTLY with the model depth on every generated string, plus soak runs of read->build->walk->write on 2*10^5 (thorough 10^6) atom families in a child process with the default and a 2 MiB stack. walk, Writer and Builder are loops "
+         "over explicit Vecs (reviewed fact about the code, exercised by the soak).",
+         "Lean 4 proof bounding recursion depth by nesting for all inputs + exact differential comparison with an activation-counter hook + child-process soak at 10^6 atoms", "4.19"),
  'C16': ("Theorem debracket_sound (Purr/Props/C16.lean): for every atom kind and every bond-order sum (an unbounded Nat), whenever debracket returns, the result has the same "
          "element or wildcard, the same aromatic flag and the same hydrogen count at that sum; kinds with isotope/configuration/charge/map and unbracketed kinds are "
          "returned unchanged; debracket returns whenever the sum plus hydrogen count fits a byte. Tie: symbol x hcount x sum x field-presence compared with the code.",
